@@ -138,6 +138,14 @@ def life_scenarios(rng):
         s = ["scenario", "new 2 %d tcp" % fam, "connectdead 2", "new 7 %d tcp" % fam, "set 7 blocking 0", "connectdead 7", "new 1 %d tcp" % fam, "set 1 backlog 9", "getters 1",
              "bind 1", "listen 1", "set 1 backlog 3", "getters 1", "set 1 keepalive 1", "set 1 keepalive 0", "set 1 timeout -4", "getters 1"]
         out.append(s)
+        # signals that arrive while a timed call has been waiting for a while (poll reports EINTR after 90 ms, twice): the call still runs out
+        # of time only after T, and a peer that acts before T is still served; an interrupted connect is restarted
+        s = ["scenario"] + tcp_pair(fam) + ["set 3 timeout 300", "plan poll:LATE90,poll:LATE90", "recv 3 10",
+                                            "set 3 timeout 400", "plan poll:LATE90,poll:LATE90", "bg recv 3 10", "sleepms 280", "send 2 6", "join",
+                                            "new 7 %d tcp" % fam, "plan connect:EINTR", "connect 7 1", "getters 7",
+                                            "new 8 %d tcp" % fam, "plan connect:EINTR,connect:EINTR,connect:EINTR", "connect 8 1", "getters 8"] + udp_pair(fam) + \
+            ["set 4 timeout 250", "plan poll:LATE70,poll:LATE70,poll:LATE70", "recvfrom 4 10", "plan connect:EINTR", "connect 5 4"]
+        out.append(s)
         # a listen call that fails leaves the socket as it was: later option calls still take effect and the getters show them
         s = ["scenario"] + udp_pair(fam) + ["getters 4", "listen 4", "set 4 backlog 7", "getters 4", "set 4 backlog 2", "getters 4", "listen 4", "set 4 backlog 11", "getters 4",
                                             "set 4 timeout 25", "recvfrom 4 10", "close 4", "listen 4", "set 4 backlog 3", "getters 4"]
